@@ -490,6 +490,10 @@ def xyz_reader(reader_class: ReadAndProcessOnTheFly) -> List[np.ndarray]:
     if reader_class.file_object is None:
         return trajectory
     for i, line in enumerate(iter(reader_class.file_object.readline, "")):
+        # a line without its terminating newline is still being written:
+        # return the (possibly empty) ready trajectory frames
+        if not line.endswith("\n"):
+            return trajectory
         spl = line.split()
         if i == 0 and spl:
             N_atoms = int(spl[0])
